@@ -65,7 +65,7 @@ K2a == Cl(2, {CidIdOf(1)}, FALSE, TRUE, TRUE, {"fb"}, FALSE, FALSE) \* by Client
 K2b == Cl(2, {CidIdOf(1), NetId(2, 3)}, TRUE, TRUE, FALSE, {}, FALSE, FALSE)
                                      \* ClientID + the /16 of A1 and A3; own settings: filtering ON
 K2c == Cl(2, {IpId(A1)}, FALSE, TRUE, TRUE, {}, FALSE, FALSE)     \* clashes with alpha at A1; own (empty) services
-ClientPal == IF Scale = 1 THEN {K1a, K1c, K1d, K2a, K2b} ELSE {K1a, K1b, K1c, K1d, K2a, K2b, K2c}
+ClientPal == IF Scale = 1 THEN {K1a, K1c, K2a, K2b} ELSE {K1a, K1b, K1c, K1d, K2a, K2b, K2c}
 
 Rule(kind, pat, tgt) ==
     [place |-> "custom", kind |-> kind, pat |-> pat, tgt |-> PL!NameHost(tgt), imp |-> FALSE,
@@ -87,14 +87,20 @@ AccPal == {Acc({}, {}, {}),
 SvcPal == {{}, {"yt"}, {"yt", "fb"}}
 
 IgnPat(n) == [k |-> "plain", n |-> n]
-QConfPal == {[k |-> "qlog_config", enabled |-> on, anon |-> an, ignored |-> ig]
-             : on \in BOOLEAN, an \in BOOLEAN, ig \in {{}, {IgnPat(ADS)}}}
-SConfPal == {[k |-> "stats_config", enabled |-> on, ignored |-> ig]
-             : on \in BOOLEAN, ig \in {{}, {IgnPat(RWN)}}}
+QConf(on, an, ig) == [k |-> "qlog_config", enabled |-> on, anon |-> an, ignored |-> ig]
+SConf(on, ig)     == [k |-> "stats_config", enabled |-> on, ignored |-> ig]
+QConfPal == IF Scale = 1
+            THEN {QConf(TRUE, FALSE, {}), QConf(FALSE, FALSE, {}), QConf(TRUE, TRUE, {}),
+                  QConf(TRUE, FALSE, {IgnPat(ADS)}), QConf(TRUE, TRUE, {IgnPat(ADS)})}
+            ELSE {QConf(on, an, ig) : on \in BOOLEAN, an \in BOOLEAN, ig \in {{}, {IgnPat(ADS)}}}
+SConfPal == IF Scale = 1
+            THEN {SConf(TRUE, {}), SConf(FALSE, {}), SConf(TRUE, {IgnPat(RWN)})}
+            ELSE {SConf(on, ig) : on \in BOOLEAN, ig \in {{}, {IgnPat(RWN)}}}
 
 AdminOps ==
     {[k |-> "client_add", c |-> c] : c \in ClientPal}
-    \cup {[k |-> "client_update", name |-> n, c |-> c] : n \in {1, 2}, c \in ClientPal}
+    \cup UNION {{[k |-> "client_update", name |-> n, c |-> c]
+                 : c \in {x \in ClientPal : Scale = 2 \/ x.name = n}} : n \in {1, 2}}   \* Scale 2: renames too
     \cup {[k |-> "client_delete", name |-> n] : n \in {1, 2}}
     \cup AccPal
     \cup {[k |-> "set_rules", rules |-> r] : r \in RulePal}
@@ -108,13 +114,14 @@ AdminOps ==
 
 Sender(a, m, p) == [addr |-> a, cid |-> m, proto |-> p]
 Senders == IF Scale = 1
-           THEN {Sender(A1, 0, "udp"), Sender(A2, 0, "tcp"), Sender(A3, 0, "udp"), Sender(A2, 1, "https")}
-           ELSE {Sender(A1, 0, "udp"), Sender(A1, 0, "tcp"), Sender(A2, 0, "udp"), Sender(A2, 0, "tcp"),
-                 Sender(A3, 0, "udp"), Sender(A2, 1, "https"), Sender(A1, 1, "https"), Sender(A2, 2, "https")}
+           THEN {Sender(A1, 0, "udp"), Sender(A2, 0, "tcp"), Sender(A2, 1, "https")}
+           ELSE {Sender(A1, 0, "udp"), Sender(A2, 0, "tcp"), Sender(A3, 0, "udp"),
+                 Sender(A2, 1, "https"), Sender(A1, 1, "https"), Sender(A2, 2, "https")}
 QNames == IF Scale = 1 THEN {FWD, ADS, YT, RWN, DENY} ELSE {FWD, ADS, YT, FB, RWN, DENY}
-QTypes == {"A", "AAAA"}
-Queries == {[k |-> "query", addr |-> s.addr, cid |-> s.cid, proto |-> s.proto, name |-> n, qt |-> t]
-            : s \in Senders, n \in QNames, t \in QTypes}
+\* AAAA only where the family matters (null6, a rewrite without a value for AAAA)
+QTypes(n) == IF n \in {ADS, RWN} THEN {"A", "AAAA"} ELSE {"A"}
+Queries == UNION {{[k |-> "query", addr |-> s.addr, cid |-> s.cid, proto |-> s.proto, name |-> n, qt |-> t]
+                   : s \in Senders, t \in QTypes(n)} : n \in QNames}
 
 ASSUME PrintT(<<"@@V", ToJson([k |-> "universe", admin |-> AdminOps, queries |-> Queries])>>)
 
@@ -132,7 +139,7 @@ Busy2 == After(S0, <<[k |-> "client_add", c |-> K1c], [k |-> "client_add", c |->
                      [k |-> "blocked_services", svcs |-> {"yt", "fb"}],
                      Acc({}, {AC!Ip("v4", BitsOf(A2))}, {}),
                      [k |-> "stats_config", enabled |-> TRUE, ignored |-> {IgnPat(RWN)}]>>, 1)
-Bases == {S0, Busy1, Busy2}
+Bases == IF Scale = 1 THEN {S0} ELSE {S0, Busy1, Busy2}
 
 \* ------------------------------------------------------------------ actions
 Ledger(s, q, o) == [S |-> [s EXCEPT !.log = <<>>, !.st = NoStats], q |-> q, o |-> o]
@@ -256,8 +263,10 @@ Excluded(q) ==
     THEN ~(AC!Ip("v4", BitsOf(q.addr)) \in S.acc.allowed \/ (q.cid # 0 /\ AC!Id(CidStr(q.cid)) \in S.acc.allowed))
     ELSE AC!Ip("v4", BitsOf(q.addr)) \in S.acc.disallowed \/ (q.cid # 0 /\ AC!Id(CidStr(q.cid)) \in S.acc.disallowed)
 HostDenied(q) == AC!Pat("domain", q.name) \in S.acc.hosts
+\* (Queries do not change the configuration: every reached configuration is
+\* reached by admin calls alone, so it is enough to look when nq = 0.)
 EffectOfSettings ==
-    \A q \in Queries :
+    nq = 0 => \A q \in Queries :
         LET os == QueryOutcomes(S, q) IN
         /\ Cardinality(os) = 1              \* the universe has no point where the documentation is silent
         /\ Cardinality(AttrNow(q)) <= 1     \* at most one client (C04)
